@@ -36,6 +36,8 @@ def run(ctx):
     ctx.rule('R18.4', 'generate_dom writes matrix(m00 m10 m01 m11 m02 m12): the inverse permutation of the matrix(...) reader', 1)
     ob = lambda r: Obligation(ctx, r)
     own_object_per_element(ctx, mdl, 'R18.2')
+    _save_writes_serialisation(ctx, mdl)
+    _documents_do_not_share_state(ctx, mdl)
 
     # ================================================================= writers: what element name do they create?
     facts = {}
@@ -396,6 +398,8 @@ def run(ctx):
         explore(mdl, th_ask, {'ext_hooks': {'warnings.warn': lambda it, a, k: None}})
     except Undecidable:
         asked_doc = None
+    if asked_doc is not None and not asked_doc:
+        asked_doc = None          # nothing was asked: the traversal did not get as far as its queries
 
     def doc_reader_matches(expanded):
         if asked_doc is None:
@@ -436,6 +440,10 @@ def run(ctx):
             if forms is None:
                 ctx.undecided('R18.1', 'package', '%s -> %s' % (w, r), 'writer form not extracted', where='svgpathtools/*')
                 continue
+            if r == 'Document.paths' and asked_doc is None:
+                ctx.undecided('R18.1', 'package', '%s -> %s' % (w, r), 'the Document traversal left the interpretable fragment: its element queries are not known',
+                              where='svgpathtools/*')
+                continue
             ok = bool(can(*forms))
             ctx.record('R18.1', 'package', '%s -> %s' % (w, r), ok,
                        detail='' if ok else 'the writer serialises <%s> (expanded %s); this reader does not match it' % forms,
@@ -446,3 +454,69 @@ def run(ctx):
     ctx.record('R18.1', fadd.qualname, 'elements created by add_path/add_group are in the namespace the Document searches', ok,
                detail='' if ok else 'add_path creates %r, add_group %r; flattened_paths searches {%s}path' % (t, facts.get('doc_group_tag'), doc_ns),
                where=where(fadd))
+
+
+def _save_writes_serialisation(ctx, mdl):
+    """Document.save writes the serialisation of its tree with every attribute value intact (whatever it does to tag names or
+    headers): a serialisation whose attribute values contain text that looks like markup ('svg:', 'xmlns') is handed to the file
+    with those values unchanged."""
+    DocC = mdl.cls('document.Document')
+    if 'save' not in DocC.methods:
+        return
+    fi = DocC.methods['save']
+    vals = ['id="svg:copy-of-outline"', 'data-source="sprites.svg:icon-7"', 'note="xmlns:svg= is text here"', 'd="M0,0 L1,1"']
+    SER = '<svg:svg xmlns:svg="http://www.w3.org/2000/svg"><svg:path %s/></svg:svg>' % ' '.join(vals)
+    for pretty in (False, True):
+        def th(it, pretty=pretty):
+            written = []
+            f = stub('file', write=lambda it2, a, k: written.append(a[0]), close=lambda it2, a, k: None)
+            f.attrs['__enter__'] = PyFunc(lambda it2, a, k: f, 'enter')
+            f.attrs['__exit__'] = PyFunc(lambda it2, a, k: None, 'exit')
+            it.ext_hooks['builtins.open'] = lambda it2, a, k: f
+            it.call_hooks['document.Document.__repr__'] = lambda it2, a, k: SER
+            it.call_hooks['document.Document.pretty'] = lambda it2, a, k: '<?xml version="1.0" ?>\n' + SER
+            it.ext_hooks['builtins.repr'] = lambda it2, a, k: SER
+            doc = it.new_obj('document.Document')
+            it.call_method(doc, 'save', 'f.svg', prettify=pretty)
+            return written
+
+        def judge(v):
+            try:
+                text = ''.join(x if isinstance(x, str) else x.plain() for x in v)
+            except Exception:
+                return None, 'the text written is not a plain string'
+            missing = [x for x in vals if x not in text]
+            return not missing, '' if not missing else 'the attribute(s) %s of the serialised tree do not reach the file unchanged (written: %s)' % (
+                missing, short(text, 120))
+        Obligation(ctx, 'R18.2').run(fi, 'Document.save(prettify=%s) writes the attribute values of the serialisation unchanged' % pretty, th, judge)
+
+
+def _documents_do_not_share_state(ctx, mdl):
+    """two Documents created from scratch in one run are independent: each has its own root element (what is added to one
+    does not appear in the other)."""
+    DocC = mdl.cls('document.Document')
+    fi = DocC.methods['__init__']
+
+    def th(it):
+        made = []
+
+        def element(it2, a, k):
+            e = stub('Element<%s>' % (a[0],))
+            e.attrs['tag'] = a[0]
+            e.attrs['attrib'] = {}
+            made.append(e)
+            return e
+        for nm in ('xml.etree.ElementTree.Element', 'xml.etree.ElementTree.SubElement'):
+            it.ext_hooks[nm] = element
+        it.ext_hooks['xml.etree.ElementTree.ElementTree'] = lambda it2, a, k: stub('tree', getroot=lambda it3, a3, k3, r=a[0]: r)
+        d1 = it.instantiate(DocC, [], {})
+        d2 = it.instantiate(DocC, [None], {})
+        return it.call_method(d1.attrs['tree'], 'getroot'), it.call_method(d2.attrs['tree'], 'getroot'), d1.attrs.get('root'), d2.attrs.get('root')
+
+    def judge(v):
+        r1, r2, a1, a2 = v
+        if r1 is r2 or (a1 is not None and a1 is a2):
+            return False, 'Document() and Document(None) created in one run share one root element: paths added to one appear in the other'
+        return True, ''
+    Obligation(ctx, 'R18.3').run(fi, 'two Documents created from scratch have their own root elements', th, judge,
+                                 opts={'ext_hooks': {'os.path.abspath': lambda it, a, k: a[0]}})
